@@ -11,8 +11,8 @@ import (
 	"github.com/ThreeDotsLabs/watermill/components/requestreply"
 	"github.com/ThreeDotsLabs/watermill/message"
 	gogotypes "github.com/gogo/protobuf/types"
-	"google.golang.org/protobuf/types/known/structpb"
 	"google.golang.org/protobuf/proto"
+	"google.golang.org/protobuf/types/known/structpb"
 	"google.golang.org/protobuf/types/known/wrapperspb"
 
 	"verif/explore"
@@ -136,10 +136,10 @@ func copyEqualsScenario() *explore.Scenario {
 }
 
 type jv struct {
-	S string         `json:"s"`
-	N int64          `json:"n"`
+	S string            `json:"s"`
+	N int64             `json:"n"`
 	M map[string]string `json:"m,omitempty"`
-	L []string       `json:"l,omitempty"`
+	L []string          `json:"l,omitempty"`
 }
 
 func (jv) unused() {}
